@@ -49,6 +49,13 @@ class CleanPass(FunctionPass):
             if block in predecessors:
                 continue
 
+            # A predecessor which also jumps to the successor directly
+            # would have to deliver two different phi values over a single
+            # edge. Keep the block in that case.
+            tgt = block.last_instruction.target
+            if tgt.phis and any(p in tgt.predecessors for p in predecessors):
+                continue
+
             # Update successor incoming blocks:
             for successor in successors:
                 successor.replace_incoming(block, predecessors)
